@@ -28,6 +28,7 @@ func zzStubDigest(pub *PublicKey, msg, uid []byte) ([]byte, error) {
 //verif:stub-symbolic (*github.com/tjfoc/gmsm/sm2.PublicKey).Sm3Digest zzStubDigest
 //verif:unwind 4
 //verif:nomerge
+//verif:thorough-only
 func zzH_c01_sign_spec() {
 	g := zzNewGroup(zzQ())
 	q := g.q()
@@ -65,3 +66,66 @@ func zzH_c01_sign_spec() {
 	vReach("signed")
 }
 
+
+// H01-verify-gates: Verify (digest form) and Sm2Verify (message form) accept exactly what the
+// standard's verification accepts: r, s in [1, n-1], t = (r+s) mod n != 0, and
+// (e + x([s]G + [t]P)) mod n == r; everything else - zero, negative, >= n, t == 0 - is rejected.
+//
+//verif:property C01
+//verif:expect-reach end
+//verif:bound abstract prime-order group of order 257 in place of the curve; public key any point d in [1,q-2]; r and s any 16-bit magnitudes with either sign (covers 0, n, n+1, > n, negative), digest 2 symbolic bytes
+//verif:outside the real curve (C03); the hash (C04)
+//verif:stub-symbolic (*github.com/tjfoc/gmsm/sm2.PublicKey).Sm3Digest zzStubDigest
+//verif:stub-symbolic github.com/tjfoc/gmsm/sm2.ZA zzStubZA01
+//verif:stub-symbolic github.com/tjfoc/gmsm/sm2.msgHash zzStubMsgHash01
+//verif:unwind 40
+func zzH_c01_verify_gates() {
+	g := zzNewGroup(257)
+	priv, _ := zzKey(g, "d")
+	pub := &priv.PublicKey
+	r := new(big.Int).SetBytes(vBytes("r", 2, 2))
+	s := new(big.Int).SetBytes(vBytes("s", 2, 2))
+	if vBool("rneg") {
+		r.Neg(r)
+	}
+	if vBool("sneg") {
+		s.Neg(s)
+	}
+	eb := vBytes("e", 2, 2)
+	var ok bool
+	msgForm := vChoice("form", 2) == 1
+	if msgForm {
+		zzMsgHashValue = eb
+		ok = Sm2Verify(pub, []byte{1, 2}, nil, r, s)
+	} else {
+		ok = Verify(pub, eb, r, s)
+	}
+	n := g.params.N
+	inRange := r.Sign() > 0 && s.Sign() > 0 && r.Cmp(n) < 0 && s.Cmp(n) < 0
+	if !inRange {
+		vAssert("out-of-range-rejected", !ok)
+		vReach("end")
+		return
+	}
+	t := new(big.Int).Add(r, s)
+	t.Mod(t, n)
+	if t.Sign() == 0 {
+		vAssert("t-zero-rejected", !ok)
+		vReach("end")
+		return
+	}
+	x1, y1 := g.ScalarBaseMult(s.Bytes())
+	x2, y2 := g.ScalarMult(pub.X, pub.Y, t.Bytes())
+	x, _ := g.Add(x1, y1, x2, y2)
+	R := new(big.Int).Add(x, new(big.Int).SetBytes(eb))
+	R.Mod(R, n)
+	vAssert("accept-iff-equation", ok == (R.Cmp(r) == 0))
+	vReach("end")
+}
+
+var zzMsgHashValue []byte
+
+func zzStubZA01(pub *PublicKey, uid []byte) ([]byte, error) { return []byte{0}, nil }
+func zzStubMsgHash01(za, msg []byte) (*big.Int, error) {
+	return new(big.Int).SetBytes(zzMsgHashValue), nil
+}
